@@ -519,6 +519,13 @@ impl Exec {
         let mut calm = 0;
         loop {
             let db = self.db();
+            if db.verif_is_poisoned() {
+                // a background worker failed: nothing will quiesce any more
+                return Err(Deviation::new(
+                    "unexpected-error:poisoned",
+                    "the database was Poisoned by a failing background worker while waiting for background work",
+                ));
+            }
             let busy = db.verif_pending_work() > 0
                 || db.outstanding_flushes() > 0
                 || db.active_compactions() > 0
